@@ -916,6 +916,7 @@ type coArg struct {
 	T        gen.JT `json:"t"`        // static type of the argument without NULL
 	Nullable bool   `json:"nullable"` // static type is NULL | T
 	V        gen.JV `json:"v"`        // run-time value: NULL or a value laid out as T says
+	BareNull bool   `json:"bare_null,omitempty"` // V is NULL and the static type is exactly NULL (a NULL literal, an all-NULL column)
 }
 
 type coCase struct {
@@ -1012,10 +1013,12 @@ func genCoalesce(t *rapid.T) coCase {
 			ty, v = gen.JT{K: "tuple", Parts: []gen.JT{{K: "int"}, ot}}, gen.JV{K: "tuple", L: []gen.JV{gen.Int(int64(i)), ov}}
 		}
 		nullable := rapid.Bool().Draw(t, l+"nullable")
+		bare := false
 		if rapid.IntRange(0, 2).Draw(t, l+"isnull") == 0 {
 			nullable, v = true, gen.Null()
+			bare = rapid.IntRange(0, 2).Draw(t, l+"barenull") == 0
 		}
-		args[i] = coArg{T: ty, Nullable: nullable, V: v}
+		args[i] = coArg{T: ty, Nullable: nullable, V: v, BareNull: bare}
 	}
 	return coCase{Family: family, Args: args}
 }
@@ -1120,6 +1123,9 @@ func coalesceProp(r *ev.Rec) func(coCase) ev.Outcome {
 			if a.Nullable || a.V.K == "null" {
 				st = eng.Nullable(st)
 			}
+			if a.BareNull && a.V.K == "null" {
+				st = octosql.Null
+			}
 			fields[i] = physical.SchemaField{Name: name + "_u", Type: st}
 			mapping[name] = name + "_u"
 			exprs[i] = logical.NewVariable(name)
@@ -1134,6 +1140,15 @@ func coalesceProp(r *ev.Rec) func(coCase) ev.Outcome {
 			o.Classes = append(o.Classes, "coalesce_all_null")
 		case first > 0:
 			o.Classes = append(o.Classes, "coalesce_skips_leading_nulls")
+		}
+		for i, a := range c.Args {
+			if a.BareNull && a.V.K == "null" {
+				o.Classes = append(o.Classes, "coalesce_argument_typed_exactly_null")
+				if first > i {
+					o.Classes = append(o.Classes, "coalesce_skips_argument_typed_exactly_null")
+				}
+				break
+			}
 		}
 		tupleArg := strings.HasPrefix(c.Family, "tuple") && first >= 0
 		var got octosql.Value
@@ -1300,7 +1315,7 @@ func TestC13(t *testing.T) {
 			"conversions: int()/float() on every accepted kind, strings from a pool of almost-numbers (' 1', '+1', '1e3', '0x10', '', 'abc', 2^63, '1_000', 'Inf', 'nan', '1e400', full-width digits, ...) plus formatted and mutated numbers; success iff strconv.ParseInt(s,10,64)/ParseFloat(s,64) succeeds, else NULL; int(float) = truncation for |f| < 2^63 (outside only 'no crash'); string(x) is a String and int(string(i)) = i, float(string(f)) = f for finite f. "+
 			"unix_time: time_from_unix(i) is the instant i s after the epoch (calendar arithmetic) and is asserted for |i| < 1e11, and time_to_unix(time_from_unix(i)) = i for every int64 (2^53+-1, +-1e18, Min/MaxInt64, uniform draws); Float: instant within 1 us of f (exact big-float comparison), whole floats round-trip, fractional ones give floor or ceil; time_to_unix(t) of generated times. "+
 			"in_not_in: NULL-free lists and tuples (0-4 elements, nested to depth 1), x mostly an element or of the elements' kind; structural equality model (-0.0 = +0.0, instants, kinds distinct); comparisons involving NaN or Int-vs-equal-Float leave the answer open. "+
-			"index: l[i] for 0 <= i, including i = len, len+1, 2^31, MaxInt64. coalesce: 1-4 arguments, each NULL in 1/3 of the draws, families scalar / mixed scalars / lists / objects with the same fields in different orders (also nested) / objects with different field subsets / lists of objects / tuples / tuples of objects; result and first non-NULL argument compared after keying objects by field name (absent field = NULL field). "+
+			"index: l[i] for 0 <= i, including i = len, len+1, 2^31, MaxInt64. coalesce: 1-4 arguments, each NULL in 1/3 of the draws (statically typed NULL | T, or exactly NULL like a NULL literal in a third of those), families scalar / mixed scalars / lists / objects with the same fields in different orders (also nested) / objects with different field subsets / lists of objects / tuples / tuples of objects; result and first non-NULL argument compared after keying objects by field name (absent field = NULL field). "+
 			"coalesce_lazy: 2-5 arguments, each an Int, NULL, or an expression that raises at run time (100 / 0, panic('boom'), abs of a String under static type Int | String); an erroring argument after the first non-NULL one must not be evaluated (the value comes back), one before it must surface its error. "+
 			"non-trivial: a boundary value (0, -1, Min/MaxInt64, +-0.0, NaN, +-Inf, MaxFloat64, unparsable string, epoch) or an overload other than (Int,Int)/(Float,Float); every case of the non-arithmetic subs. distinct = canonical case JSON",
 		"integer division by zero, negative indexes and negative repeat counts are C07's and are not generated; String overloads of + and * are not part of the statement",
